@@ -351,7 +351,8 @@ func toValue(value interface{}) Value {
 		case reflect.Uint64:
 			return Value{kind: valueNumber, value: value.Uint()}
 		case reflect.Float32:
-			return Value{kind: valueNumber, value: float32(value.Float())}
+			// Widen like the plain float32 case above: Value.float64() has no float32 form.
+			return Value{kind: valueNumber, value: value.Float()}
 		case reflect.Float64:
 			return Value{kind: valueNumber, value: value.Float()}
 		case reflect.String:
